@@ -324,7 +324,7 @@ func c17DirVariant(src *choice.Src, res *core.Result) {
 		return
 	}
 	sort.Slice(files, func(i, j int) bool { return walkLess(files[i].path, files[j].path) })
-	root, err := os.MkdirTemp("", "zipsim-c17-")
+	root, err := os.MkdirTemp(scratchBase(), "zipsim-c17-")
 	if err != nil {
 		core.SetHarnessError("c17: " + err.Error())
 		return
